@@ -451,14 +451,16 @@ def _diag_evecs(r, kind, case):
 
 
 def _t_diag_evecs(case):
+    """svd of a *batched* diagonal-class operator (DiagLinearOperator._svd multiplies its eigenvector operator by a column of
+    signs; unbatched positive definite ones come out right by luck, singular ones fall under svd_of_singular_psd)."""
     opn, m = case["op"], case.get("method")
     r = case["recipe"]
-    if opn in ("root", "root_inv") and m in ("symeig", "svd", "diagonalization"):
+    if len(refmodel.shape(r)) <= 2:
+        return False
+    if opn in ("root", "root_inv") and m == "svd":
         if refmodel.shape(r)[-1] == 1:
             return False  # 1 x 1: answered before the method is looked at
-        if m == "diagonalization" and _above(case):
-            return False  # Lanczos eigenvectors are dense
-        return _diag_evecs(r, "root", case) or (m == "svd" and _diag_evecs(r, "svd", case))
+        return _diag_evecs(r, "svd", case) or _diag_evecs(r, "root", case)
     if opn in ("svd", "tl_svd"):
         return _diag_evecs(r, "svd", case)
     return False
